@@ -27,8 +27,9 @@ import (
 // ---- (1) dynamic: the scheduled upgrade on a populated chain, with restarts around the upgrade height ----
 
 type c19Scenario struct {
-	name  string
-	setup func(e *domEnv, w *world.World)
+	name          string
+	setup         func(e *domEnv, w *world.World)
+	initialHeight int64 // genesis initial_height (0 = default 1)
 }
 
 func c19Scenarios() []c19Scenario {
@@ -39,22 +40,22 @@ func c19Scenarios() []c19Scenario {
 		}
 	}
 	return []c19Scenario{
-		{"populated", func(e *domEnv, w *world.World) {}},
-		{"tombstone+transferred-token+handed-over-denom", func(e *domEnv, w *world.World) {
+		{name: "populated", setup: func(e *domEnv, w *world.World) {}},
+		{name: "tombstone+transferred-token+handed-over-denom", setup: func(e *domEnv, w *world.World) {
 			k := e.DidKey
 			must(w, world.TxSpec{Msgs: []sdk.Msg{&didtypes.MsgDeactivateDIDRequest{Did: e.Did, VerificationMethodId: k.vmID(e.Did, 1), Signature: k.sign(&didtypes.DIDDocument{Id: e.Did}, 0, 1), FromAddress: e.A.Bech}}, Signers: s(e.A)})
 			must(w, world.TxSpec{Msgs: []sdk.Msg{pnfttypes.NewMsgTransferPNFTRequest("d", "t", e.A.Bech, e.B.Bech)}, Signers: s(e.A)})
 			must(w, world.TxSpec{Msgs: []sdk.Msg{pnfttypes.NewMsgTransferRequest("d", e.A.Bech, e.W.Bech)}, Signers: s(e.A)})
 			must(w, world.TxSpec{Msgs: []sdk.Msg{aoltypes.NewMsgDeleteWriter("a", e.W.Bech, e.A.Bech)}, Signers: s(e.A)})
 		}},
-		{"same-topic-name-under-two-owners", func(e *domEnv, w *world.World) {
+		{name: "same-topic-name-under-two-owners", setup: func(e *domEnv, w *world.World) {
 			must(w, world.TxSpec{Msgs: []sdk.Msg{aoltypes.NewMsgCreateTopic("a", "", e.B.Bech)}, Signers: s(e.B)})
 			must(w, world.TxSpec{Msgs: []sdk.Msg{aoltypes.NewMsgAddWriter("a", "", "", e.W.Bech, e.B.Bech)}, Signers: s(e.B)})
 			must(w, world.TxSpec{Msgs: []sdk.Msg{aoltypes.NewMsgAddWriter("a", "", "", e.F.Bech, e.B.Bech)}, Signers: s(e.B)})
 			must(w, world.TxSpec{Msgs: []sdk.Msg{pnfttypes.NewMsgCreateDenomRequest("dd", "S", "n", "", "", "", e.B.Bech, "")}, Signers: s(e.B)})
 			must(w, world.TxSpec{Msgs: []sdk.Msg{pnfttypes.NewMsgMintPNFTRequest("dd", "t", "same token id in another denom", "", "", "", e.B.Bech, "")}, Signers: s(e.B)})
 		}},
-		{"removed-denom-d+live-denoms-dd-and-d-x", func(e *domEnv, w *world.World) {
+		{name: "removed-denom-d+live-denoms-dd-and-d-x", setup: func(e *domEnv, w *world.World) {
 			// denom d: its only token burned, then the denom deleted (x/nft keeps a zero supply counter); live denoms whose ids
 			// have "d" as a strict prefix hold tokens; removed topic writers and a prefix-related topic name as well
 			must(w, world.TxSpec{Msgs: []sdk.Msg{pnfttypes.NewMsgCreateDenomRequest("dd", "S", "n", "", "", "", e.B.Bech, "data")}, Signers: s(e.B)})
@@ -68,7 +69,8 @@ func c19Scenarios() []c19Scenario {
 			must(w, world.TxSpec{Msgs: []sdk.Msg{aoltypes.NewMsgAddWriter("ab", "", "", e.W.Bech, e.A.Bech)}, Signers: s(e.A)})
 			must(w, world.TxSpec{Msgs: []sdk.Msg{aoltypes.NewMsgDeleteWriter("a", e.W.Bech, e.A.Bech)}, Signers: s(e.A)})
 		}},
-		{"many-records", func(e *domEnv, w *world.World) {
+		{name: "chain-continued-from-an-export(initial_height=1000)", setup: func(e *domEnv, w *world.World) {}, initialHeight: 1000},
+		{name: "many-records", setup: func(e *domEnv, w *world.World) {
 			for i := 0; i < 5; i++ {
 				must(w, world.TxSpec{Msgs: []sdk.Msg{aoltypes.NewMsgAddRecordRequest("a", []byte{byte(i)}, []byte(strings.Repeat("v", i)), e.W.Bech, e.A.Bech, "")}, Signers: s(e.W)})
 			}
@@ -98,7 +100,7 @@ func c19Run(e *domEnv, sc c19Scenario, point string) (obs c19Obs, fail string) {
 	home := world.NewHome()
 	defer os.RemoveAll(home)
 	nUp := len(app.Upgrades)
-	oldOpts := world.Options{Accounts: []*world.Account{e.A, e.B, e.W, e.F}, Home: home, DB: dbm.NewMemDB(), Upgrades: nUp - 1}
+	oldOpts := world.Options{Accounts: []*world.Account{e.A, e.B, e.W, e.F}, Home: home, DB: dbm.NewMemDB(), Upgrades: nUp - 1, InitialHeight: sc.initialHeight}
 	w := populatedOpts(e, oldOpts)
 	sc.setup(e, w)
 	H := w.Height + 2
